@@ -108,7 +108,10 @@ func execKill(h KH, rec *pbt.Rec) error {
 	}
 	journal := dir + "/journal"
 	if _, err := x.Call(&xp.Req{Op: "node-stream", Name: "n", Path: journal, Chunks: chunks}, 10*time.Second); err != nil {
-		return un("stream: %v", err)
+		// a kill aimed at an early write can land before the stream command is answered
+		if d, ok := err.(*rig.Death); !(ok && h.DuringWrite > 0 && d.Signal == "killed") {
+			return un("stream: %v", err)
+		}
 	}
 	if h.DuringWrite > 0 {
 		// the node kills itself inside its k-th store write; wait for that (the stream may be too short to reach it)
